@@ -28,11 +28,13 @@ type Info struct {
 	DontCareF uint8
 	// RAlt: the refresh counter may have advanced one step less (DDCB/FDCB:
 	// silicon counts two fetches, three are accepted).
-	RAlt   bool
-	Bytes  int // instruction length
-	M1     int // opcode fetches
-	Taken  bdd.Node // for conditional control transfers: the condition
-	Repeat bdd.Node // for repeating block instructions: the repeat predicate
+	RAlt bool
+	// DontCareR: the refresh counter is not compared (interrupt acknowledge).
+	DontCareR bool
+	Bytes     int      // instruction length
+	M1        int      // opcode fetches
+	Taken     bdd.Node // for conditional control transfers: the condition
+	Repeat    bdd.Node // for repeating block instructions: the repeat predicate
 }
 
 type idxMode int
@@ -45,14 +47,14 @@ const (
 
 // decode context of one instruction
 type dctx struct {
-	m       *M
-	mode    idxMode
-	disp    dom.BV // fetched displacement, nil until needed
-	used16  bool   // HL/IX/IY used as a 16-bit register or as (HL)/(IX+d)
-	used8   bool   // H/L replaced by the index register halves
-	info    *Info
-	nbytes  int
-	m1      int
+	m      *M
+	mode   idxMode
+	disp   dom.BV // fetched displacement, nil until needed
+	used16 bool   // HL/IX/IY used as a 16-bit register or as (HL)/(IX+d)
+	used8  bool   // H/L replaced by the index register halves
+	info   *Info
+	nbytes int
+	m1     int
 }
 
 // Exec evaluates the instruction whose opcode bytes are pinned by the trace's
@@ -121,8 +123,8 @@ func (d *dctx) opM1() int {
 	return d.constByte(d.m.FetchM1())
 }
 
-func (d *dctx) imm8() dom.BV   { d.nbytes++; return d.m.Fetch() }
-func (d *dctx) imm16() dom.BV  { d.nbytes += 2; return d.m.Fetch16() }
+func (d *dctx) imm8() dom.BV  { d.nbytes++; return d.m.Fetch() }
+func (d *dctx) imm16() dom.BV { d.nbytes += 2; return d.m.Fetch16() }
 func (d *dctx) set(class, name string) {
 	d.info.Class, d.info.Name = class, name
 }
